@@ -66,10 +66,16 @@ def _alloc_index():
     notes = []
     for rel, pg in D.compiled_pages(zd).items():
         notes.extend(pg["notes"])
+    # every note got a ZID from `db create`; one the page compiler does not read back as a
+    # ZID is reported by the cases that use this index
+    lost = [n["body"].split("\n")[0] for n in notes if not n["zid"]]
+    for k, n in enumerate(notes):
+        if not n["zid"]:
+            n["zid"] = f"<no ZID read back, note {k}>"
     ix = IX.Index.__new__(IX.Index)
     ix.day = DAY
     ix.zdir = zd
-    ix.raw = {"notes": notes, "pages": {}, "problems": []}
+    ix.raw = {"notes": notes, "pages": {}, "problems": lost}
     ix.universe = Q.Universe(notes)
     ix._sess = {}
     return ix
@@ -154,6 +160,8 @@ def run_case(ctx, case) -> F.Outcome:
     qtext = Q.render_query(["note"], where, order, ["none"])
     base = _index(name)
     problems = []
+    if name == "ALLOC" and base.raw["problems"]:
+        problems.append(("zid-assigned-by-db-create-is-not-read-back-as-a-zid", {"first_lines": base.raw["problems"][:5]}))
     if via == "direct":
         res, err = base.execute(qtext)
         if err is not None:
@@ -189,7 +197,7 @@ def run_case(ctx, case) -> F.Outcome:
         else:
             got = r["notes"]
             gz = [n["zid"] for n in got]
-            if sorted(z for z in gz if z) != sorted(want) or len(gz) != len(want):
+            if sorted(z for z in gz if z) != sorted(want) or len(gz) != len(want) or (problems and name == "ALLOC"):
                 problems.append(("compiled-notes-are-not-the-selected-notes", {"expected": sorted(want), "observed": gz}))
             else:
                 for n in got:
